@@ -204,7 +204,18 @@ func GenSyscallGroup(r *mon.Rand, o EventOpts) Group {
 		}
 	}
 	if r.Chance(1, 2) {
-		add(fmt.Sprintf("type=PROCTITLE %s proctitle=%s", hdr, Hex([]byte(u.word("title")+"\x00-"+u.word("f")))))
+		title := u.word("title") + "\x00-" + u.word("f")
+		// a command line whose last argument is empty (grep "") ends in a NUL, one whose first is empty begins
+		// with one: the decoded title then has white space at its edge, which is part of the value
+		switch r.Fork(91).Intn(8) {
+		case 0:
+			title += "\x00"
+		case 1:
+			title = "\x00" + title
+		case 2:
+			title = " " + title + "\x00\x00"
+		}
+		add(fmt.Sprintf("type=PROCTITLE %s proctitle=%s", hdr, Hex([]byte(title))))
 	}
 	if r.Chance(1, 5) { // SELinux AVC
 		add(fmt.Sprintf("type=AVC %s avc:  denied  { read write } for  pid=%s comm=\"%s\" name=\"%s\" dev=\"sda1\" ino=%s scontext=%s:r:t:s0 tcontext=%s:o:f:s0 tclass=file permissive=0", hdr, u.num(), u.word("ac"), u.word("an"), u.num(), u.word("sc"), u.word("tc")))
